@@ -228,6 +228,11 @@ func c12General(c *fw.Ctx, sp drive.Spec) *fw.Violation {
 	o := run(c, sp)
 	c.Traces++
 	c.Transitions++
+	if o.Kind == drive.KOther {
+		o.Ev = nil
+		o.Stdout = clip(o.Stdout)
+		return &fw.Violation{What: "error position: the run failed with an error that carries no line and no source text", Detail: detail{Program: sp.Program, Files: sp.Files, Selectors: sp.Selectors, Got: o}}
+	}
 	if o.Kind != drive.KSyntax && o.Kind != drive.KRuntime {
 		return nil
 	}
@@ -272,7 +277,7 @@ func init() {
 		Rule: fmt.Sprintf("programs of a function line, 'BEGIN {', a preset line, m lines before and n lines after one fault line, and '}', the other lines drawn from {blank, a comment with non-ASCII text, a string with a non-ASCII character, a tab-indented statement, a statement}, with LF and CRLF line ends; %d fault lines: ", nf) +
 			"an illegal character, a stray UTF-8 continuation byte and a stray 0x80 at every token boundary of a host line, non-ASCII characters used as identifiers, unexpected tokens, return / break out of place, assignment to a literal, and 21 single-line runtime faults each after 0-3 two-byte characters; " +
 			"oracle (computed from the text): the error kind, Line = the fault line's number, SrcLine = its text (with or without a trailing CR), Col inside the byte range of the offending construct (exactly the byte for an illegal character); the same through the binary's three-line diagnostic, with the program inline and read with -f, with and without a #! first line; " +
-			"and, for every failing program of the C11 fault x slot product and the seed splices, the general law that the quoted line is line N of the text; states = (kind, lines before, line ending)",
+			"and, for every failing program of the C11 fault x slot product, the seed splices and 25 runaway recursions (5 shapes x 5 entry points, so that every kind of frame meets the limit), the general law that the error has a position and the quoted line is line N of the text; states = (kind, lines before, line ending)",
 		Plan: func(t fw.Tier) int { return nf + 1 },
 		Bound: func(t fw.Tier) string {
 			return "m <= 2 (thorough 3) lines before, n <= 1 (thorough 2) lines after, both line endings, every fault line"
@@ -301,6 +306,20 @@ func init() {
 							sp.Program = src[:i] + tail
 							c.Do(func() any { return c12Spec{Form: "general", Prog: sp.Program, Files: sp.Files, Sels: sp.Selectors} }, func() *fw.Violation { return c12General(c, sp) })
 						}
+					}
+				}
+				// runaway recursion of several shapes: whichever frame meets the limit, the error has a position
+				for _, fn := range []string{
+					"function r(n) { return 1 + r(n + 1) }",
+					"function r(n) {\n  return match (n) {\n    k => 1 + r(k + 1)\n  }\n}",
+					"function r(n) {\n  return match (n) {\n    k => match (k) {\n      j => 1 + r(j + 1)\n    }\n  }\n}",
+					"function r(n) {\n  match (n) {\n    k => {\n      return 1 + r(k + 1)\n    }\n  }\n}",
+					"function r(n) { for (v in [n]) {\n  t = r(v + 1)\n } return t }",
+				} {
+					for _, entry := range []string{"BEGIN {\n  print r(0)\n}", "function start() { return r(0) }\nBEGIN {\n  print start()\n}", "function a() { return b() }\nfunction b() { return r(0) }\nBEGIN {\n  print a()\n}",
+						"BEGIN {\n  print match (1) {\n    1 => r(0)\n  }\n}", "{\n  x = match ($) {\n    v => { print r(v) }\n  }\n}"} {
+						sp := drive.Spec{Program: "# header\n" + fn + "\n" + entry + "\n", Files: []drive.File{{Name: "in.json", Data: "[1]"}}}
+						c.Do(func() any { return c12Spec{Form: "general", Prog: sp.Program, Files: sp.Files} }, func() *fw.Violation { return c12General(c, sp) })
 					}
 				}
 				for seed, pc := range seedPrograms() {
